@@ -518,7 +518,7 @@ func init() {
 				p.Actions = append(p.Actions, Action{At: r.Dur(p.H, p.Until), Kind: Pick(r, []string{AReconnect, AReconnect, ADisconnect, AClosed}), Inst: r.Intn(n)})
 			}
 		}
-		if r.Bool(0.3) {
+		if r.Bool(0.4) {
 			// the outsider rewrites the record the moment an instance's own write (Create, or the
 			// takeover's Update) has been applied, i.e. while that instance is about to be promoted
 			// and its follower-side code (watcher, periodic check) is still running; goroutines are
@@ -1301,7 +1301,7 @@ func init() {
 	// afterwards the record is removed or left to expire, the application validates its token,
 	// and the instance may be started again with a new context.
 	families["ctxcancel"] = func(r *Rng) *Plan {
-		p := &Plan{Judge: []string{"C02", "C03", "C04", "C08", "C05", "C19", "C06"}}
+		p := &Plan{Judge: []string{"C02", "C03", "C04", "C08", "C05", "C19", "C06", "C01"}}
 		baseTiming(r, p, hLattice[:5])
 		n := 1 + r.Intn(3)
 		p.Insts = mkInsts(r, n, 1)
@@ -1317,13 +1317,23 @@ func init() {
 			who = r.Intn(n)
 		}
 		p.Actions = append(p.Actions, Action{At: t, Kind: ACancelStart, Inst: who})
+		ci := len(p.Actions) - 1
+		if r.Bool(0.3) {
+			// ... or the cancellation lands while one of the instance's own acquisitions is in
+			// flight (its Create has been sent, perhaps applied, not yet answered)
+			a := &p.Actions[len(p.Actions)-1]
+			a.OpKind, a.OpN, a.Phase, a.Delay = "create", 1+r.Intn(2), Pick(r, []string{"invoke", "apply"}), Pick(r, []time.Duration{0, 1})
+			if r.Bool(0.5) { // and much later the application shuts the object down, deleting "its" key
+				p.Actions = append(p.Actions, Action{At: t + p.TTL + r.Dur(2*sec, 6*sec), Kind: AStopCtx, Inst: who, DeleteKey: true})
+			}
+		}
 		if r.Bool(0.3) { // a redundant Start on the running election beforehand (refused)
 			p.Actions = append(p.Actions, Action{At: r.Dur(p.H, t), Kind: AStart, Inst: who})
 		}
 		if r.Bool(0.5) {
 			// (C02 speaks of records that only the elections touch)
 			p.Judge = []string{"C03", "C04", "C08", "C05", "C19", "C06"}
-			p.NoJudge = []string{"C02"}
+			p.NoJudge = []string{"C02", "C01"}
 			p.Actions = append(p.Actions, Action{At: t + r.Dur(0, 2*p.H), Kind: Pick(r, []string{AOutDelete, AExpire}), Key: "g1"})
 		}
 		for k := 0; k < r.Intn(3); k++ {
@@ -1342,8 +1352,20 @@ func init() {
 		} else if r.Bool(0.5) {
 			// started again at the very instant of the cancellation (cancel(); Start(newCtx) back to
 			// back): the library's reaction to the cancellation and the new Start race
+			p.Actions[ci].OpKind, p.Actions[ci].OpN, p.Actions[ci].Phase, p.Actions[ci].Delay = "", 0, "", 0
 			p.Actions = append(p.Actions, Action{At: t, Kind: AStart, Inst: who})
 			p.Sched = SchedCfg{YieldProb: 0.7}
+			if r.Bool(0.5) {
+				// ... and the goroutine that reacts to the cancellation is slow to get going (up to
+				// 2 s before it takes the election mutex), while the old record is removed so that
+				// the new run leads before it does
+				p.Sched = SchedCfg{YieldProb: 0.8, StallMax: 2 * sec, StallSites: []string{"Start.func"}, StallUnknown: true}
+				// (that goroutine belongs to no instance the harness knows of, so its stalls are not
+				// accounted to one: only the oracles without timing bounds judge these plans)
+				p.Judge = []string{"C08", "C19", "C05"}
+				p.NoJudge = []string{"C01", "C02", "C03", "C04", "C06"}
+				p.Actions = append(p.Actions, Action{At: t + r.Dur(ms, 100*ms), Kind: AOutDelete, Key: "g1"})
+			}
 		}
 		statusCalls(r, p)
 		p.Until = t + 3*p.TTL + 3*sec
